@@ -7,7 +7,7 @@
     which fails by itself), Munmap, Merge, SetMajorDim, SetMinorDim, Reset, Transpose,
     construction and garbage collection (the finalizer), on arbitrary matrices. *)
 From Coq Require Import List Arith Bool Sorted.
-From ET Require Import Model.Scalar Model.Sparse Model.Mm Proofs.MmProofs.
+From ET Require Import Model.Scalar Model.Sparse Model.Mm Proofs.MmProofs Generated.MmapSkel.
 Import ListNotations.
 
 (** Transparency: the contents of every matrix evolve exactly as in the pure matrix model
@@ -100,3 +100,17 @@ Print Assumptions C12_release_unmaps.
 Theorem C12_invariant : forall (S : ScalarOps) (ops : list (@op S)), Inv (run ops).
 Proof. exact @reachable_inv. Qed.
 Print Assumptions C12_invariant.
+
+(** The source has the shape the resource model was written for.  [Generated/MmapSkel.v] is
+    re-extracted from pkg/sparse/matrix.go on every run (harness -mmap-shape): Mmap has a copy loop
+    that polls the context once per row and a separate adoption loop that cannot fail; adopted spans
+    are full slice expressions; the temp file is removed on every exit; the new mapping is released
+    on failure and the old one only after adoption; Merge swaps its operand in first and resets it
+    last.  These are exactly the assumptions built into [mmap_op], [place_rows] and [step]. *)
+Theorem C12_source_has_the_modelled_shape :
+  mm_two_row_loops = true /\ mm_copy_loop_polls = true /\ mm_adoption_loop_cannot_fail = true /\
+  mm_full_slice_expr = true /\ mm_temp_removed_on_every_exit = true /\
+  mm_new_mapping_released_on_failure = true /\ mm_old_mapping_released_after_adoption = true /\
+  merge_swaps_operand_in_first = true /\ merge_resets_operand_last = true.
+Proof. repeat split; reflexivity. Qed.
+Print Assumptions C12_source_has_the_modelled_shape.
